@@ -1,5 +1,5 @@
 (* C02sim_j -- per-state simulation lemmas (M_tok state method vs S_tok), see Proofs/C02sim.v and C02simtac.v.
-   Each lemma:  R m s -> st m = X -> wk m = true -> covered m = true -> simok s (step_X m). *)
+   Each lemma:  R m s -> st m = X -> wk m = true -> plain m = true -> simok s (step_X m). *)
 From Coq Require Import NArith List Bool Arith Lia ZifyBool ZifyN.
 From Verif Require Import Sx Str.
 From Verif.Gen Require Import Entities Tokenizer.
@@ -9,24 +9,24 @@ From Verif.Proofs Require Import C02a C02dict C08 C02sim C02simtac.
 Import ListNotations.
 Local Open Scope N_scope.
 
-Lemma sim_afterDoctypePublicIdentifierState : forall m s, R m s -> st m = afterDoctypePublicIdentifierState -> wk m = true -> covered m = true -> simok s (step_afterDoctypePublicIdentifierState m).
+Lemma sim_afterDoctypePublicIdentifierState : forall m s, R m s -> st m = afterDoctypePublicIdentifierState -> wk m = true -> plain m = true -> simok s (step_afterDoctypePublicIdentifierState m).
 Proof. sim_state step_afterDoctypePublicIdentifierState. Qed.
 
-Lemma sim_afterDoctypePublicKeywordState : forall m s, R m s -> st m = afterDoctypePublicKeywordState -> wk m = true -> covered m = true -> simok s (step_afterDoctypePublicKeywordState m).
+Lemma sim_afterDoctypePublicKeywordState : forall m s, R m s -> st m = afterDoctypePublicKeywordState -> wk m = true -> plain m = true -> simok s (step_afterDoctypePublicKeywordState m).
 Proof. sim_state step_afterDoctypePublicKeywordState. Qed.
 
-Lemma sim_commentStartDashState : forall m s, R m s -> st m = commentStartDashState -> wk m = true -> covered m = true -> simok s (step_commentStartDashState m).
+Lemma sim_commentStartDashState : forall m s, R m s -> st m = commentStartDashState -> wk m = true -> plain m = true -> simok s (step_commentStartDashState m).
 Proof. sim_state step_commentStartDashState. Qed.
 
-Lemma sim_doctypeSystemIdentifierDoubleQuotedState : forall m s, R m s -> st m = doctypeSystemIdentifierDoubleQuotedState -> wk m = true -> covered m = true -> simok s (step_doctypeSystemIdentifierDoubleQuotedState m).
+Lemma sim_doctypeSystemIdentifierDoubleQuotedState : forall m s, R m s -> st m = doctypeSystemIdentifierDoubleQuotedState -> wk m = true -> plain m = true -> simok s (step_doctypeSystemIdentifierDoubleQuotedState m).
 Proof. sim_state step_doctypeSystemIdentifierDoubleQuotedState. Qed.
 
-Lemma sim_scriptDataEscapeStartDashState : forall m s, R m s -> st m = scriptDataEscapeStartDashState -> wk m = true -> covered m = true -> simok s (step_scriptDataEscapeStartDashState m).
+Lemma sim_scriptDataEscapeStartDashState : forall m s, R m s -> st m = scriptDataEscapeStartDashState -> wk m = true -> plain m = true -> simok s (step_scriptDataEscapeStartDashState m).
 Proof. sim_state step_scriptDataEscapeStartDashState. Qed.
 
-Lemma sim_scriptDataEscapedEndTagNameState : forall m s, R m s -> st m = scriptDataEscapedEndTagNameState -> wk m = true -> covered m = true -> simok s (step_scriptDataEscapedEndTagNameState m).
+Lemma sim_scriptDataEscapedEndTagNameState : forall m s, R m s -> st m = scriptDataEscapedEndTagNameState -> wk m = true -> plain m = true -> simok s (step_scriptDataEscapedEndTagNameState m).
 Proof. sim_state step_scriptDataEscapedEndTagNameState. Qed.
 
-Lemma sim_scriptDataEscapedState : forall m s, R m s -> st m = scriptDataEscapedState -> wk m = true -> covered m = true -> simok s (step_scriptDataEscapedState m).
+Lemma sim_scriptDataEscapedState : forall m s, R m s -> st m = scriptDataEscapedState -> wk m = true -> plain m = true -> simok s (step_scriptDataEscapedState m).
 Proof. sim_state step_scriptDataEscapedState. all: (batch_goal batch_emit). Qed.
 
